@@ -1,16 +1,48 @@
 SPEC = dict(
-    claimed=False,
+    claimed=True,
     title='Sensor smoothing stays within observed readings, converges, ignores failed reads',
     props_file='Props/C08.v', props_mod='Props.C08',
-    proof_files=['Proofs/Sensor.v', 'Drv/Sensor.v'],
+    proof_files=['Proofs/SensorFloat.v', 'Proofs/Sensor.v', 'Proofs/LeafTie.v', 'Drv/Sensor.v'],
     tie_vo=['Proofs/LeafTie.vo'],
     drivers=[dict(name='sensor', drv_mod='Drv.Sensor', drv_file='Drv/Sensor.v', shard=60,
                   args={'quick': ['n=600', 'hostile=60'], 'thorough': ['n=8000', 'hostile=800']},
                   timeout={'quick': 600, 'thorough': 3000})],
-    rule='stage 1',
-    assumptions=[],
-    trusted_base=[],
-    finding_codes={1: 'D20'}, finding_text={'D20': 'hull/contraction of UpdateSimpleMovingAvg fail outside the magnitude guard'},
-    level_text='', level_note='',
+    rule='seeded random cases: backend in {hwmon, file, cmd} (real HwmonSensor/FileSensor/CmdSensor on temp files / root-owned 0755 scripts), '
+         'window n in 1..50 (hostile stream also 1e6 and 2^40), initial average from the real initializeSensors (valid or failing first read) '
+         'or NewSensor+SetMovingAvg, 3..40 polls (thorough: ..120) through the real updateSensor; value profiles millidegrees, drift, degrees '
+         '(decimals for cmd), tiny/subnormal, mixed sign up to 1e9, large up to 1e15, near 2^52; constant runs of 2..12 polls; fault rate '
+         '0/10/30/80% with faults missing file, empty file, non-numeric text, directory (EISDIR), injected EIO (util.VerifReadHook), '
+         'command exit code 1/2/127/255, missing command, garbage output, nan/NaN/inf/+Inf/-inf/Infinity/-Infinity/iNf, (thorough) timeout; '
+         'integer texts with spaces, +sign, leading zeros, CRLF; floats printed as %g, %e or hex. A separate hostile stream (tag hostile) '
+         'uses magnitudes 2^53, 2^62, 1e300, 1e308, MaxFloat64, subnormals (finding D20). GetMovingAvg() is compared bit-exactly after '
+         'every poll. Non-trivial = at least two distinct averages in the observed sequence; distinct = distinct Coq case terms.',
+    assumptions=[
+        'reading classes: strconv.Atoi / strconv.ParseFloat / os.ReadFile / os/exec are not modelled; the model starts from the class '
+        '(ReadErr | ValZ z | ValF f) of one read and the driver feeds the corresponding text through the real parsers (glue observed, not proved)',
+        'UpdateSimpleMovingAvg tie: gen/Leaf.v regenerated from internal/util/math.go, equal to Util.upd_avg by reflexivity (Proofs/LeafTie.v)',
+        'window size 1 <= n < 2^63 (Go int); integer readings |z| < 2^63 (every value Atoi can return except minInt)',
+        'magnitude guard of C08_hull / C08_not_poisoned: |v| <= 2^1021 for window >= 2 (vacuous for integer readings: C08_int_unguarded); '
+        'integers below 2^52 for window = 1. Outside the guard the statement is false: C08_hull_refuted_extreme, finding D20',
+    ],
+    trusted_base=[
+        'Coq stdlib FloatAxioms (Prim2SF_valid, SF2Prim_Prim2SF, Prim2SF_SF2Prim, add_spec, sub_spec, mul_spec, div_spec, opp_spec, abs_spec, '
+        'leb_spec, of_uint63_spec, ...) and Uint63 axioms, through Flocq 4.1 IEEE754.PrimFloat; classical reals of the stdlib '
+        '(ClassicalDedekindReals.sig_forall_dec, sig_not_dec, Classical_Prop.classic, functional_extensionality_dep) wherever Flocq B2R lemmas are used; '
+        'the exact list per theorem is in print_assumptions',
+        'hand-written model of sensors/{hwmon,file,cmd}.go GetValue, monitor.go updateSensor and backend.go seeding: agreement with the code observed on the generated cases',
+        'the float contraction factor (1-1/n) with rounding slack is judged on the implementation by the observer contractsb (exact integer arithmetic in units of 2^-1074) but proved only for the idealisation over R',
+    ],
+    partial='C08_converges_partial: for binary64 it is proved that one poll moves the average toward the reading without overshoot (window >= 2, guard); '
+            'the geometric factor (1-1/n) is proved for the exact-arithmetic idealisation only (C08_converges_ideal) and checked with an explicit slack '
+            '2^-51*max(|x|,|avg|)+2^-1074 on every observed poll. Timeouts of command sensors run only in the thorough tier. Parsing is exercised, not modelled.',
+    finding_codes={1: 'D20'},
+    finding_text={'D20': 'UpdateSimpleMovingAvg leaves the hull of the readings outside the magnitude guard: window 1 with values that are not integers below 2^52 '
+                         '(upd(-2^53,1,3) = 4; 1-ulp overshoot on decimal readings), overflow to Inf then NaN at |v| > 2^1021 (+-1e308)'},
+    level_text='Theorems C08_fault_skips (all backends, all windows, all averages), C08_not_poisoned and C08_hull (every finite reading sequence, every '
+               'fault placement, every window 1 <= n < 2^63, induction over the sequence; binary64 arithmetic via Flocq: rounding monotonicity, exact '
+               'small sums, DN/UP bracketing) hold for the model of the repaired code; the unguarded hull is refuted by computed witnesses (D20). '
+               'The model is tied to the Go code by the reflexivity lemma on the regenerated UpdateSimpleMovingAvg and by a differential run of real '
+               'HwmonSensor/FileSensor/CmdSensor objects through the real initializeSensors and updateSensor with bit-exact comparison of every average.',
+    level_note='trusted: Coq kernel + FloatAxioms/Flocq/classical reals; hand-written model of GetValue/updateSensor/seeding, agreement observed on generated cases; parsers and os/exec not modelled',
     design_ref='DESIGN.md section 5 C08',
 )
